@@ -1454,6 +1454,26 @@ class Dosini(object):
         return experiment.model.frontends.flowir.FlowIR.compress_flowir(flowir)
 
     @classmethod
+    def _write_configuration(cls, cfg, path):
+        """Writes a ConfigParser to @path by means of a temporary file and a rename.
+
+        The files of an instance are rewritten while the experiment exists (e.g. every time the instance is loaded): a
+        crash or an I/O error must never leave a truncated file behind.
+        """
+        import uuid
+        temp_path = '%s.%s.tmp' % (path, uuid.uuid4())
+        try:
+            with open(temp_path, 'w') as f:
+                cfg.write(f)
+            os.replace(temp_path, path)
+        except Exception:
+            try:
+                os.remove(temp_path)
+            except OSError:
+                pass
+            raise
+
+    @classmethod
     def dump(cls, flowir, output_dir, update_existing=True, is_instance=False):
         # type: (DictFlowIR, str, bool, bool) -> None
         logger.info('Storing DOSINI configuration (instance=%s, update_existing=%s) to path %s' % (
@@ -1482,6 +1502,12 @@ class Dosini(object):
                 variable_files = [os.path.join(output_dir, 'variables.d', '%s.conf' % platform) for platform in flowir[FlowIR.FieldPlatforms]]
             else:
                 variable_files = []
+
+            # VV: The stage files of an instance are replaced one by one (see _write_configuration), those that the new
+            #     description does not have are removed at the very end so that at no point is a stage missing
+            stale_instance_stage_files = stage_files if is_instance else []
+            if is_instance:
+                stage_files = []
 
             remove_files = sorted(stage_files + platform_files + variable_files)
 
@@ -1519,6 +1545,14 @@ class Dosini(object):
             cls._dump_status(flowir, output_dir, update_existing)
 
         cls._dump_components(flowir, output_dir, is_instance, update_existing)
+
+        if update_existing and is_instance:
+            current = set(
+                os.path.join(output_dir, 'stages.d', 'stage%d.instance.conf' % comp.get('stage', 0))
+                for comp in flowir.get(FlowIR.FieldComponents, []))
+            for stale in stale_instance_stage_files:
+                if stale not in current and os.path.exists(stale):
+                    os.remove(stale)
 
     @classmethod
     def _dump_output(cls, flowir, output_dir, force_generate=True):
@@ -1636,8 +1670,7 @@ class Dosini(object):
             for val in environments[section_name]:
                 cfg.set(section_name_pretty, val, str(environments[section_name][val]))
 
-        with open(output_file_name, 'w') as f:
-            cfg.write(f)
+        cls._write_configuration(cfg, output_file_name)
 
     @classmethod
     def _flowir_component_to_dict(cls, flowir_component):
@@ -1741,8 +1774,7 @@ class Dosini(object):
 
             cfg = platform_to_cfg(platform)
             logger.log(19, 'Generating variables file %s' % platform_files[platform])
-            with open(platform_files[platform], 'w') as f:
-                cfg.write(f)
+            cls._write_configuration(cfg, platform_files[platform])
 
     @classmethod
     def _dump_platforms(cls, flowir, output_dir, update_existing):
@@ -1792,8 +1824,7 @@ class Dosini(object):
                 for key in environments[environment]:
                     cfg.set(pretty_name, key, str(environments[environment][key]))
 
-            with open(output_file, 'w') as f:
-                cfg.write(f)
+            cls._write_configuration(cfg, output_file)
 
     @classmethod
     def _translate_dict_to_dict(
@@ -2205,5 +2236,4 @@ class Dosini(object):
                 is_instance=is_instance
             )
 
-            with open(stage_path, 'w') as f:
-                cfg.write(f)
+            cls._write_configuration(cfg, stage_path)
